@@ -522,7 +522,7 @@ def run(scn, sb):
             for o2 in ops_here:
                 for pth in op_outputs(o2, out_dir).values():
                     allowed.add(os.path.relpath(pth, sb.base))
-                if o2['stage'] == 'validate' and o2['cfg']['use_output_dir']:
+                if o2['stage'] == 'validate' and (o2['cfg']['use_output_dir'] or o2['cfg'].get('chain')):
                     allowed.add('VALIDATE_DIR')
             scr_rel = os.path.relpath(scratch, sb.base) + os.sep
             for rel in sorted(set(all_after) - set(all_before)):
